@@ -8,7 +8,12 @@ use crate::scenario::Scenario;
 
 pub mod c01;
 pub mod c02;
+pub mod c03;
+pub mod c04;
+pub mod c05;
+pub mod c06;
 pub mod c13;
+pub mod c14;
 
 #[derive(Clone, Copy, Debug, PartialEq, Eq)]
 pub enum Tier {
@@ -41,7 +46,7 @@ pub struct CheckDef {
 }
 
 pub fn all() -> Vec<CheckDef> {
-    vec![c01::def(), c02::def(), c13::def()]
+    vec![c01::def(), c02::def(), c03::def(), c04::def(), c05::def(), c06::def(), c13::def(), c14::def()]
 }
 
 pub fn find(id: &str) -> Option<CheckDef> {
